@@ -46,9 +46,10 @@ func DurationValueWithin(d time.Duration) Value {
 			return equal, ok
 		}
 		if xd < yd {
-			return yd-xd <= d, true
+			xd, yd = yd, xd
 		}
-		return xd-yd <= d, true
+		diff := xd - yd // xd >= yd, so a negative result means the difference does not fit into a Duration
+		return diff >= 0 && diff <= d, true
 	}
 }
 
